@@ -111,6 +111,7 @@ func main() {
 	genMessages(*repo, *out, info)
 	genTypes(*repo, *out)
 	genRouting(*repo, *out)
+	genAddr(*repo, *out)
 }
 
 // ---------------------------------------------------------------------------------------------
